@@ -74,6 +74,23 @@ def make_runs(rng, P, n):
     return runs
 
 
+def directed_runs(rng, P):
+    """For every fee class x finite threshold: the waiter starts first (or after the addition, for timeout 0) and the schedule lets the
+    fees stay / rise by one addition before a tick makes the call look at them. (What the call then returns is still the model's say.)"""
+    runs = []
+    add, tick, fin = dict(k="add", d=P["addfee"]), dict(k="tick", d=min(P["ticks"])), [dict(k="int", d=0)] * P["calls"]
+    shapes = [(max(x for x in P["timeouts"] if x != 1000000), 0, [add, tick]), (max(x for x in P["timeouts"] if x != 1000000), 0, [tick, tick]),
+              (min(P["timeouts"]), 1, [add, tick]), (min(P["timeouts"]), 0, [tick, add])]
+    for pf in P["pfs"]:
+        for th in P["thresholds"]:
+            if th == 999999999:
+                continue
+            for to, startk, ops in shapes:
+                sched = (ops + [tick] * P["maxops"])[:P["maxops"]] + fin
+                runs.append(dict(to=to, th=th, age=min(P["ages"]), pf=pf, sched=sched, startk=startk, calls=P["calls"], dseed=rng.randrange(256)))
+    return runs
+
+
 def classify(t, allowed):
     """Returns (truncated log, accepted?). The operation after the last completed one may already have taken effect when the call
     returned (its completion is logged later): both possibilities are looked up."""
@@ -128,9 +145,10 @@ def run_config(ctx, binary, cfg, nruns, rng, obs_kinds, fee_cases):
     nshards = 4
     # a node has about 45 mature 50 BTC coinbases: runs with large previous fees are spread over more nodes
     per_node = 20 if max(pfs) >= 10 ** 6 else nruns
-    ncases = max(nshards, (nshards * nruns + per_node - 1) // per_node)
+    ncases = max(nshards, (nshards * nruns + per_node - 1) // per_node) + (3 if max(pfs) >= 10 ** 6 else 0)
     nruns = min(nruns, per_node)
-    cases = [dict(addfee=P["addfee"], runs=make_runs(rng, P, nruns)) for _ in range(ncases)]
+    allruns = (directed_runs(rng, P) if max(pfs) >= 10 ** 6 else []) + make_runs(rng, P, nruns * ncases)
+    cases = [dict(addfee=P["addfee"], runs=allruns[i::ncases][:per_node]) for i in range(ncases)]
     res = ctx.run_harness(binary, "run", cases, nproc=min(nshards, vflib.free_cpus()), name="waitnext_" + cfg[:-4], timeout=3000)
     for m in res["mismatches"]:
         raise vflib.InfraError("harness exception: %s" % m.get("why"))
@@ -149,7 +167,7 @@ def run_config(ctx, binary, cfg, nruns, rng, obs_kinds, fee_cases):
         # same-tip waits with a finite threshold, by size class of the previous template's fees and by what the fees did
         pfv = wv(t["pf"])
         rs = [e for e in trunc if e["e"] == "R"]
-        if rs and t["th"] != 999999999 and not any(e["e"] in ("tip", "int") for e in trunc[:trunc.index(rs[0])]):
+        if rs and t["th"] != 999999999 and not any(e["e"] == "tip" for e in trunc[:trunc.index(rs[0])]):
             cls = "below 2^31" if pfv < 2 ** 31 else "in [2^31, 2^32)" if pfv < 2 ** 32 else "from 2^32"
             r0 = rs[0]
             adds = sum(1 for e in trunc[:trunc.index(r0)] if e["e"] == "add")
